@@ -20,6 +20,9 @@ type Driver struct {
 	AskLog []json.RawMessage
 	// Pools are the custom root pools of the current op (C15)
 	Pools []*x509.CertPool
+	// SawUnmodelled: an answer of the current op carried data the model does not reproduce (a time-typed attribute value in a
+	// certificate's SAN directory name: time.Parse is not modelled); the op's result is then marked unmodelled
+	SawUnmodelled bool
 }
 
 func StartDriver(path string) (*Driver, error) {
@@ -61,6 +64,7 @@ func (d *Driver) Call(op M) (M, error) {
 		return nil, err
 	}
 	d.AskLog = d.AskLog[:0]
+	d.SawUnmodelled = false
 	if _, err := d.in.Write(append(line, '\n')); err != nil {
 		return nil, err
 	}
@@ -88,6 +92,9 @@ func (d *Driver) Call(op M) (M, error) {
 			// the model cannot process this op (for example: the regenerated schema no longer has the shape the op was written for).
 			// That is a disagreement with an implementation that can, not a failure of the harness.
 			return M{"model_error": fmt.Sprint(e)}, nil
+		}
+		if d.SawUnmodelled {
+			m["unmodelled"] = true
 		}
 		return m, nil
 	}
